@@ -878,6 +878,11 @@ def _process(template_path, gen, variant):
             sf = SourceFile.get(rel)
             sel = parts[1]
             rest = parts[2:]
+            for o in list(rest):
+                if o.startswith("contract_of="):
+                    # modularity: reuse, verbatim, the contract that unit <name> proves on the real body
+                    other = os.path.join(VERIF, "units", o[len("contract_of="):], "unit.rs.tmpl")
+                    blk["contract"] = contract_of(other, rel, sel, [x for x in rest if x.startswith("fn ")], variant, gen) + blk["contract"]
             if re.match(r"impl\b", sel):
                 impl = sf.find_impl(sel)
                 what = rest[0]
@@ -912,6 +917,28 @@ def _process(template_path, gen, variant):
             i += 1
         else:
             raise ExtractError("bad-template", f"{rel_t}:{i+1}: unknown directive `{d}`")
+
+
+def contract_of(template_path, rel, sel, fnsel, variant, gen):
+    lines = open(template_path, encoding="utf-8").read().split("\n")
+    lines = _variant_filter(lines, variant, gen)
+    want = [rel, sel] + fnsel
+    i = 0
+    while i < len(lines):
+        s = lines[i].strip()
+        if s.startswith("//@ extract "):
+            parts = split_opts(s[len("//@ extract "):])
+            key = parts[:2] + [x for x in parts[2:] if x.startswith("fn ")]
+            j = i + 1
+            blk_lines = []
+            while j < len(lines) and lines[j].strip() != "//@ end":
+                blk_lines.append(lines[j])
+                j += 1
+            if key == want and "external_body" not in parts:
+                return parse_block(blk_lines)["contract"]
+            i = j
+        i += 1
+    raise ExtractError("bad-template", f"contract_of: no proving block for {want} in {template_path}")
 
 
 def _impl_type_name(header):
